@@ -38,8 +38,32 @@ pub fn run(ctx: &mut Ctx) {
     cfg.max_tickers = 4;
     cfg.max_tx = 18;
     let n = ctx.n(400, 25_000);
-    let cases = matcher_cases(prop, ctx, &cfg, n);
-    ctx.ev.rule = "generated ledgers over 1–4 securities interleaved on shared dates: report(all) must equal the combination of the reports of each security's lines alone (disposals, legs, holdings; year totals adding up), legs exactly unless a (date, security) has ≥ 2 SELL lines (then per rule and acquisition date — D17); ticker case: the ledger with randomly re-cased tickers parsed from DSL and from JSON must give the same transactions. Non-trivial = accepted ledger with ≥ 2 securities sharing a date; distinct by ledger text.".into();
+    let mut cases = matcher_cases(prop, ctx, &cfg, n);
+    // twin contention: the same date skeleton for two or three securities, with different quantities
+    // (shared per-date state between securities would show here)
+    {
+        let mut r = crate::rng::Rng::new(ctx.seed ^ 0x7719);
+        for i in 0..(n / 3) {
+            let base = ledger::gen_contention(&mut r, &cfg);
+            let mut l = base.clone();
+            for (k, tk) in ["BBB", "CCC"].iter().enumerate() {
+                if k == 1 && r.chance(1, 2) { break; }
+                for t in &base {
+                    let mut t = t.clone();
+                    t.ticker = tk.to_string();
+                    match t.kind {
+                        Kind::Sell => { if r.chance(1, 3) { continue; } t.a = (t.a / rust_decimal::Decimal::from(1 + r.below(3))).round_dp(2).max(rust_decimal::Decimal::ONE); }
+                        Kind::Buy => { t.a = t.a + rust_decimal::Decimal::from(r.below(20)); t.b = ledger::gen_price(&mut r); }
+                        _ => {}
+                    }
+                    l.push(t);
+                }
+            }
+            r.shuffle(&mut l);
+            cases.push((format!("twin#{i}"), l));
+        }
+    }
+    ctx.ev.rule = "generated ledgers over 1–4 securities interleaved on shared dates, plus 'twin' ledgers (one contention skeleton of dates replicated for 2–3 securities with different quantities): report(all) must equal the combination of the reports of each security's lines alone (disposals, legs, holdings; year totals adding up), legs exactly unless a (date, security) has ≥ 2 SELL lines (then per rule and acquisition date — D17); ticker case: the ledger with randomly re-cased tickers parsed from DSL and from JSON must give the same transactions. Non-trivial = accepted ledger with ≥ 2 securities sharing a date; distinct by ledger text.".into();
     let ex = run_impl::wide_exemptions();
     let mut r = crate::rng::Rng::new(ctx.seed ^ 0xC09);
     for (name, l) in cases {
